@@ -419,8 +419,9 @@ void write_patched_result_to_file(const Patch& patch, const std::string& output_
         if (new_mode_copy != 0) {
             auto perms = static_cast<filesystem::perms>(new_mode_copy) & filesystem::perms::mask;
             filesystem::permissions(path, perms);
-        } else if (permission_result.needed_to_fix_permissions) {
-            // Restore permissions to before they were changed.
+        } else {
+            // Restore permissions to before they were changed. Even if we did not change them, the file
+            // may have been created afresh as the original was moved out of the way as a backup.
             filesystem::permissions(path, permission_result.old_permissions);
         }
     };
